@@ -322,7 +322,10 @@ def gen_case(rng, outside=False):
     if outside:
         nm = max(nm, 1)
     for k in range(nm):
-        md, lab = mutate(md, rng, outside=outside and k == 0)
+        try:
+            md, lab = mutate(md, rng, outside=outside and k == 0)
+        except OverflowError:      # float() of a huge int inside a mutation recipe
+            lab = 'none'
         if lab != 'none':
             labels.append(lab)
     return {'md': md, 'labels': labels, 'kind': 'outside' if outside else f'mut{len(labels)}'}
@@ -411,7 +414,10 @@ def gen_fs_case(rng):
             p = rng.choice(nodes)
             md = R.replace(md, p, R.I(int(R.build(R.get(md, p))) + rng.choice([1, -1, K])))
     elif disturb == 'mutate':
-        md, _ = mutate(md, rng)
+        try:
+            md, _ = mutate(md, rng)
+        except OverflowError:
+            pass
     return {'md': md, 'fs': {'multi': multi, 'files': files, 'disturb': disturb, 'which': rng.randrange(len(files))},
             'kind': 'fs', 'labels': ['fs:' + disturb]}
 
@@ -705,10 +711,6 @@ MATCHERS = {
             ((_info_files(case) or {}).get('t') == 'd') or
             ((_info_files(case) or {}).get('t') == 'x' and _info_files(case)['k'] == 'odict') or
             _unjoinable_path(case))),
-    # D07g: RecursionError from the recursive converters for cyclic / very deeply nested containers
-    'cyclic_or_deep': lambda case, obs, f: (
-        obs.get('kind') == 'internal:RecursionError' and
-        (_has_x(case['md'], ['cyclic-list', 'cyclic-dict', '"deep"']) or R_depth(case['md']) > 100)),
     # D07j: an int of more than 4300 digits formatted into a MetainfoError message (assert_type's repr() of
     # the offending value, validate()'s 'Expected N pieces')
     'huge_int_in_message': lambda case, obs, f: (
@@ -868,10 +870,10 @@ def evaluate(ctx, drv, cases):
 def gen_cases(ctx, scale=1.0):
     rng = ctx.rng
     cases = fixed_cases()
-    cases += [gen_case(rng) for _ in range(int(ctx.n(9000, 400000) * scale))]
-    cases += [gen_case(rng, outside=True) for _ in range(int(ctx.n(600, 20000) * scale))]
-    cases += [gen_history(rng) for _ in range(int(ctx.n(1500, 60000) * scale))]
-    cases += [gen_fs_case(rng) for _ in range(int(ctx.n(500, 15000) * scale))]
+    cases += [gen_case(rng) for _ in range(int(ctx.n(9000, 160000) * scale))]
+    cases += [gen_case(rng, outside=True) for _ in range(int(ctx.n(600, 8000) * scale))]
+    cases += [gen_history(rng) for _ in range(int(ctx.n(1500, 24000) * scale))]
+    cases += [gen_fs_case(rng) for _ in range(int(ctx.n(500, 6000) * scale))]
     return cases
 
 
@@ -896,7 +898,8 @@ def run(ctx, drv):
         'the expected piece count is exact integer arithmetic in code and model (numbers of any size); the '
         'int->str limit of 4300 digits in error messages is modelled (finding D07j)',
         'Python dicts have pairwise distinct keys: every in-domain case satisfies Codec.wf (checked, machinery error otherwise)',
-        'nesting depth <= 100 (CPython recursion limit is not modelled; deeper/cyclic values: finding D07g)',
+        'nesting depth <= 100 for the model correspondence (CPython recursion limit is not modelled); deeper and cyclic '
+        'values are checked implementation-vs-specification: exports must raise MetainfoError (D07g, repaired in /repo 19d011f)',
         'values outside PyVal (set, generator, bytearray, range, custom mappings, lone surrogates, cyclic) are '
         'checked on the implementation against the specification only',
         'Torrent objects created from a magnet link carry a stored _infohash that infohash falls back to; '
